@@ -28,7 +28,8 @@ Record facts := mkFacts {
   f_d512 : bytes;            (* sha512.Sum512 *)
   f_chain_roots : bool;      (* leaf chains, through the presented intermediates, to tlscfg.RootCAs *)
   f_chain_clientcas : bool;  (* ... to tlscfg.ClientCAs *)
-  f_time_ok : bool;          (* every certificate of that chain is inside its validity window now *)
+  f_not_before : N;          (* the window in which every certificate of that chain is valid, *)
+  f_not_after : N;           (* in unix nanoseconds (latest NotBefore, earliest NotAfter)      *)
   f_eku_server : bool;       (* the chain is usable for ExtKeyUsageServerAuth *)
   f_eku_client : bool;       (* the chain is usable for ExtKeyUsageClientAuth *)
   f_dns : bytes -> bool;     (* Certificate.VerifyHostname(h) == nil *)
@@ -80,8 +81,14 @@ Definition eku_ok (r : role) (f : facts) : bool :=
 Definition dns_ok (dnsname : bytes) (f : facts) : bool :=
   if isnil dnsname then true else f_dns f dnsname.
 
-Definition x509_verify (r : role) (dnsname : bytes) (f : facts) : bool :=
-  chain_ok r f && f_time_ok f && eku_ok r f && dns_ok dnsname f.
+(* opts.CurrentTime is time.Now() taken INSIDE the returned function, i.e. the time of the call
+   (of the handshake), not the time ReceptorVerifyFunc / the TLS config was built.  x509 refuses
+   when now.Before(NotBefore) or now.After(NotAfter). *)
+Definition time_ok (f : facts) (now : N) : bool :=
+  (f_not_before f <=? now) && (now <=? f_not_after f).
+
+Definition x509_verify (r : role) (dnsname : bytes) (f : facts) (now : N) : bool :=
+  chain_ok r f && time_ok f now && eku_ok r f && dns_ok dnsname f.
 
 (* ---------- the pinned fingerprint loop ---------- *)
 (* the table the inner loop ranges over: (len, sum) *)
@@ -118,7 +125,7 @@ Definition pins_step (pins : list bytes) (f : facts) : verdict :=
          end
   end.
 
-(* ---------- ReceptorVerifyFunc(tlscfg, pins, expected, htype, vtype)(rawCerts, _) ---------- *)
+(* ---------- ReceptorVerifyFunc(tlscfg, pins, expected, htype, vtype)(rawCerts, _) at time now ---------- *)
 Definition dns_name_of (c : config) : bytes :=
   if (c_htype c =? HOST_DNS) && negb (isnil (c_expected c)) then c_expected c else [].
 
@@ -130,7 +137,7 @@ Definition names_step (c : config) (f : facts) : verdict :=
     end
   else Accept.
 
-Definition verify (c : config) (f : facts) : verdict :=
+Definition verify (c : config) (f : facts) (now : N) : verdict :=
   if negb (f_present f) then Refuse R_NOCERT
   else if negb (f_parses f) then Refuse R_PARSE
   else match role_of (c_vtype c) with
@@ -139,7 +146,7 @@ Definition verify (c : config) (f : facts) : verdict :=
          match pins_step (c_pins c) f with
          | Refuse w => Refuse w
          | Accept =>
-           if negb (x509_verify r (dns_name_of c) f) then Refuse R_X509
+           if negb (x509_verify r (dns_name_of c) f now) then Refuse R_X509
            else names_step c f
          end
        end.
@@ -177,18 +184,18 @@ Definition client_config (l : lookup) (expected : bytes) (htype : N) : res (opti
       else Ok (Some (mkClient v false (p_server_name p)))
   end.
 
-Definition verifier_ok (v : option config) (f : facts) : bool :=
-  match v with None => true | Some c => accepts (verify c f) end.
+Definition verifier_ok (v : option config) (f : facts) (now : N) : bool :=
+  match v with None => true | Some c => accepts (verify c f now) end.
 
 (* crypto/tls client, verifyServerCertificate: unless InsecureSkipVerify, the chain is verified
    against RootCAs with DNSName = ServerName (a client without ServerName and without
    InsecureSkipVerify does not even start the handshake); then VerifyPeerCertificate.  A TLS
    server always sends a certificate. *)
-Definition client_handshake (tc : tlsclient) (f : facts) : bool :=
+Definition client_handshake (tc : tlsclient) (f : facts) (now : N) : bool :=
   (if tc_skip_default tc then true
    else negb (isnil (tc_server_name tc)) && f_present f && f_parses f
-        && x509_verify Server (tc_server_name tc) f)
-  && verifier_ok (tc_verifier tc) f.
+        && x509_verify Server (tc_server_name tc) f now)
+  && verifier_ok (tc_verifier tc) f now.
 
 (* ---------- PrepareTLSServerConfig ---------- *)
 Record server_profile := mkSProfile {
@@ -217,13 +224,13 @@ Definition server_config (sp : server_profile) : tlsserver :=
    nothing runs.  Otherwise: no certificate + RequireAndVerify = refused; a certificate = chain
    to ClientCAs with client usage; and then VerifyPeerCertificate is called in BOTH cases — with
    an empty list when the client sent none, which ReceptorVerifyFunc refuses. *)
-Definition server_handshake (ts : tlsserver) (f : facts) : bool :=
+Definition server_handshake (ts : tlsserver) (f : facts) (now : N) : bool :=
   match ts_auth ts with
   | NoClientCert => true
   | a =>
-    (if f_present f then f_parses f && x509_verify Client [] f
+    (if f_present f then f_parses f && x509_verify Client [] f now
      else match a with RequireAndVerify => false | _ => true end)
-    && forallb (fun c => accepts (verify c f)) (ts_verifiers ts)
+    && forallb (fun c => accepts (verify c f now)) (ts_verifiers ts)
   end.
 
 (* ---------- conn.go listen: the per-connection verifier of a stream listener ---------- *)
@@ -275,8 +282,9 @@ Definition listener_config (ts : tlsserver) (remote : addr) : tlsserver :=
 Definition dns_in (l : list bytes) (h : bytes) : bool := existsb (beq_bytes h) l.
 
 Definition facts_of (present parses : bool) (d224 d256 d384 d512 : bytes)
-    (chain_roots chain_cas time_ok eku_s eku_c : bool) (dns : list bytes) (san : option bytes) : facts :=
-  mkFacts present parses d224 d256 d384 d512 chain_roots chain_cas time_ok eku_s eku_c
+    (chain_roots chain_cas : bool) (not_before not_after : N) (eku_s eku_c : bool)
+    (dns : list bytes) (san : option bytes) : facts :=
+  mkFacts present parses d224 d256 d384 d512 chain_roots chain_cas not_before not_after eku_s eku_c
           (dns_in dns) (names_of_san san).
 
 Definition code (v : verdict) : N := match v with Accept => 0 | Refuse w => w end.
@@ -290,33 +298,36 @@ Definition cr (p : profile) (expected : bytes) (htype : N) (ok : bool) : profile
 Definition sr (sp : server_profile) (ok : bool) : server_profile * bool := (sp, ok).
 Definition lr (sp : server_profile) (a : addr) (ok : bool) : server_profile * addr * bool := (sp, a, ok).
 
+(* every case carries [now]: the time (unix nanoseconds) at which the verifier was CALLED / the
+   handshake was made — not the time the verifier or the TLS config was built, which for the
+   time-boundary cases of the harness is several seconds earlier *)
 Inductive tls_case :=
 (* the function returned by ReceptorVerifyFunc, called on rawCerts: observed class (0 = nil) *)
-| TVerify (f : facts) (runs : list (config * N))
+| TVerify (now : N) (f : facts) (runs : list (config * N))
 (* crypto/tls handshake, client side built by SetClientTLSConfig + GetClientTLSConfig:
    (profile, expected, htype, handshake succeeded) *)
-| TClient (f : facts) (runs : list (profile * bytes * N * bool))
+| TClient (now : N) (f : facts) (runs : list (profile * bytes * N * bool))
 (* crypto/tls handshake, server side built by PrepareTLSServerConfig *)
-| TServer (f : facts) (runs : list (server_profile * bool))
+| TServer (now : N) (f : facts) (runs : list (server_profile * bool))
 (* mesh stream: a dial from node/service accepted by a listener with this server profile *)
-| TListen (f : facts) (runs : list (server_profile * addr * bool)).
+| TListen (now : N) (f : facts) (runs : list (server_profile * addr * bool)).
 
 Definition tls_check (c : tls_case) : bool :=
   match c with
-  | TVerify f runs =>
-    undecided f || forallb (fun r => code (verify (fst r) f) =? snd r) runs
-  | TClient f runs =>
+  | TVerify now f runs =>
+    undecided f || forallb (fun r => code (verify (fst r) f now) =? snd r) runs
+  | TClient now f runs =>
     undecided f ||
     forallb (fun r => let '(p, e, h, ok) := r in
       match client_config (Found p) e h with
-      | Ok (Some tc) => Bool.eqb (client_handshake tc f) ok
+      | Ok (Some tc) => Bool.eqb (client_handshake tc f now) ok
       | _ => false
       end) runs
-  | TServer f runs =>
+  | TServer now f runs =>
     undecided f ||
-    forallb (fun r => Bool.eqb (server_handshake (server_config (fst r)) f) (snd r)) runs
-  | TListen f runs =>
+    forallb (fun r => Bool.eqb (server_handshake (server_config (fst r)) f now) (snd r)) runs
+  | TListen now f runs =>
     undecided f ||
     forallb (fun r => let '(sp, a, ok) := r in
-      Bool.eqb (server_handshake (listener_config (server_config sp) a) f) ok) runs
+      Bool.eqb (server_handshake (listener_config (server_config sp) a) f now) ok) runs
   end.
